@@ -32,21 +32,19 @@ import (
 	"github.com/pingcap/kvproto/pkg/metapb"
 	"github.com/pingcap/kvproto/pkg/pdpb"
 	pb "github.com/pingcap/kvproto/pkg/replication_modepb"
-	"github.com/pingcap/log"
 	"github.com/tikv/pd/pkg/mock/mockcluster"
 	"github.com/tikv/pd/pkg/typeutil"
 	"github.com/tikv/pd/server/config"
 	"github.com/tikv/pd/server/core"
 	"github.com/tikv/pd/server/kv"
 	"github.com/tikv/pd/server/replication"
-	"go.uber.org/zap/zapcore"
 	"pdverif/vkit"
 	"pdverif/vkit/faultkv"
 	"pgregory.net/rapid"
 )
 
 func TestMain(m *testing.M) {
-	log.SetLevel(zapcore.FatalLevel) // the manager warns about every gap it meets
+	vkit.SilenceLog() // the manager warns about every gap it meets
 	vkit.Main(m, "C19")
 }
 func TestProp(t *testing.T)   { vkit.RunAll(t) }
